@@ -40,6 +40,8 @@ RULE = ("cases = (device LPF|BPF, order 1..8, cut-off/fs in (0.01,0.45) incl. bo
         "(a third of the BPF cases, a ninth of the LPF cases); a third of the cases draw the absolute cut-off from {1,2,4} GHz so that the same (BW, order) "
         "recurs in one process under different sampling rates) + histories (same BW and order under 3 sampling rates in sequence and back, "
         "via gv or LPF's fs=, each call sent to the model and compared with a freshly designed scipy reference) "
+        "; sampling rates over all scales (normalised 1, 2.5, 5, 7, 25, 64 incl. odd and fractional, kHz, MHz, GHz, THz) both through gv and "
+        "through LPF's explicit fs=, cut-offs always a fraction of fs, histories at normalised rates with a 1 Hz cut-off"
         "; gv configured in every way ((sps,R), (sps,fs), (R,fs) with fs not a multiple of R, fs alone, slot count N in force) for a third "
         "of the LPF/BPF cases, a third of the tone (cut-off) cases and one step of every history, cut-offs and the model referring to the "
         "REQUESTED rate; every real call runs under an operand monitor (operand bytes unchanged, result is a new object, no shared memory); "
@@ -63,7 +65,12 @@ ASSUMPTIONS = ["scipy.signal.sosfiltfilt implements the documented pad/zi/forwar
 BUDGET = {"quick": 120, "thorough": 900}
 
 ATT_DB = 20 * math.log10(2.0)          # 6.0206: two passes of a prototype with -3.0103 dB at Wn
-GVS = [(16, 1e9), (8, 10e9), (4, 2.5e9), (33, 1e9), (16, 40e9)]
+# (sps, R) pairs; fs = sps*R spans normalised rates (1, 2.5, 5, 7, 25, 64: odd and fractional), kHz, MHz, GHz and THz.
+# The first four are the GHz rates of the recurring absolute cut-offs (GVS_FIXED).
+GVS = [(16, 1e9), (8, 10e9), (4, 2.5e9), (33, 1e9), (16, 40e9),
+       (5, 1.0), (7, 1.0), (25, 1.0), (5, 0.5), (64, 1.0), (1, 1.0), (9, 4.9e3), (3, 1.7e6), (7, 0.3e9), (16, 1e12), (3, 0.7e12)]
+# explicit fs= arguments of LPF over the same scales (None = take gv.fs)
+FS_ARGS = [None, None, None, 3.3e9, 7e10, 1.0, 2.5, 5.0, 7.0, 25.0, 64.0, 44101.0, 4.7e6, 2.5e12]
 # absolute cut-offs (Hz) that recur, within one process, under several sampling rates (history / memoisation of the design):
 # each is inside (0.01, 0.45)*fs for the first four entries of GVS (fs = 16, 80, 10, 33 GS/s)
 WN_FIXED = [1e9, 2e9, 4e9]
@@ -72,10 +79,15 @@ GVS_FIXED = GVS[:4]
 POSITIONAL = {"LPF": ["input", "BW", "n", "fs", "retH"], "BPF": ["input", "BW", "n"]}
 # every way of configuring gv: (sps,R), (sps,fs), (R,fs) with NON-integer fs/R, fs alone (R stays at its default), slot count N in force
 GV_CONFIGS = [{"sps": 16, "R": 1e9}, {"sps": 8, "fs": 20e9}, {"R": 10e9, "fs": 25e9}, {"R": 2.5e9, "fs": 33e9}, {"R": 3e9, "fs": 10e9},
-              {"fs": 12.5e9}, {"fs": 16e9}, {"R": 10e9, "fs": 25e9, "N": 4}, {"sps": 8, "R": 5e9, "N": 3}, {"sps": 5, "fs": 12e9, "N": 2}]
+              {"fs": 12.5e9}, {"fs": 16e9}, {"R": 10e9, "fs": 25e9, "N": 4}, {"sps": 8, "R": 5e9, "N": 3}, {"sps": 5, "fs": 12e9, "N": 2},
+              # small / normalised, kHz, MHz, THz rates (odd and fractional fs included)
+              {"sps": 5, "R": 1.0}, {"fs": 7.0}, {"sps": 25, "R": 1.0}, {"sps": 5, "fs": 2.5}, {"R": 2.0, "fs": 5.0}, {"sps": 1, "R": 1.0},
+              {"sps": 7, "R": 1.0, "N": 3}, {"fs": 25.0, "R": 10.0}, {"sps": 9, "R": 4.9e3}, {"R": 1.5e6, "fs": 4.7e6}, {"fs": 2.5e12, "sps": 4}]
 GV_NONINT = [{"R": 10e9, "fs": 25e9}, {"R": 2.5e9, "fs": 33e9}, {"R": 3e9, "fs": 10e9}, {"fs": 12.5e9}, {"R": 10e9, "fs": 25e9, "N": 4}]
 # for the histories (absolute cut-offs 1/2/4 GHz stay inside (0.01,0.45)*fs)
 GV_HIST_EXTRA = [{"R": 10e9, "fs": 25e9}, {"fs": 12.5e9}, {"sps": 8, "fs": 20e9, "N": 4}]
+# histories at normalised rates: absolute cut-off 1 Hz is inside (0.01, 0.45)*fs for fs = 5, 7, 25, 2.5 (and 3.5)
+GV_HIST_SMALL = [{"sps": 5, "R": 1.0}, {"fs": 7.0}, {"sps": 25, "R": 1.0}, {"sps": 5, "R": 0.5}, {"R": 1.0, "fs": 3.5}]
 
 
 def _fs_requested(cfg):
@@ -141,7 +153,7 @@ def gen_cases(rng, tier):
                     c["wn"] = rng.choice(WN_FIXED)
                 if dev == "lpf":
                     c["form"] = rng.choice(["ndarray", "ndarray-int", "container", "container", "container-complex"])
-                    c["fs_arg"] = rng.choice([None, None, 3.3e9, 7e10]) if "wn" not in c else rng.choice([None, None, 33e9, 80e9])
+                    c["fs_arg"] = rng.choice(FS_ARGS) if "wn" not in c else rng.choice([None, None, 33e9, 80e9])
                     if not c["form"].startswith("container"):
                         c["noise"] = False
                     c["npol"] = 1
@@ -165,7 +177,7 @@ def gen_cases(rng, tier):
             cases.append({"kind": "tone", "dev": rng.choice(["lpf", "bpf"]) if k else ("lpf" if order % 2 else "bpf"),
                           "order": order, "fcn": fcn, "sps": sps, "R": R, "npol": rng.choice([1, 2]),
                           "phase": rng.uniform(0, 6.28), "amp": rng.choice([1e-13, 0.01, 1.0, 7.0, 1e9]), "seed": rng.getrandbits(32),
-                          "fs_arg": rng.choice([None, 3.3e9, 7e10])})
+                          "fs_arg": rng.choice(FS_ARGS)})
             if k == 2 or (k >= 4 and k % 2 == 0):
                 # cut-off clause under every way of configuring gv; non-integer fs/R for both devices in every run
                 t = cases[-1]
@@ -186,7 +198,7 @@ def gen_cases(rng, tier):
             sps, R = rng.choice(GVS)
             cases.append({"kind": "reth", "dev": "lpf", "order": order, "nr": nr,
                           "kc": rng.randint(max(1, int(math.ceil(0.011 * nr))), int(0.44 * nr)),
-                          "sps": sps, "R": R, "npol": 1, "fs_arg": rng.choice([None, 5e9]), "seed": rng.getrandbits(32)})
+                          "sps": sps, "R": R, "npol": 1, "fs_arg": rng.choice([None, 5e9, 7.0, 25.0, 2.5]), "seed": rng.getrandbits(32)})
         # records not longer than the padding: scipy refuses them (outside the statement; the model must agree on the error)
         sdev = rng.choice(["lpf", "bpf"])
         cases.append({"kind": "short", "dev": sdev, "order": order, "fcn": _fcn(rng),
@@ -200,11 +212,15 @@ def gen_cases(rng, tier):
     for order in range(1, 9):
         for hdev in (["lpf", "bpf", "lpf-fs"] if not quick else [["lpf", "bpf", "lpf-fs"][(order + j) % 3] for j in range(2)]):
             for _ in range(1 if quick else 3):
-                seq = rng.sample(GVS_FIXED, 2) + [rng.choice(GV_HIST_EXTRA)]
-                rng.shuffle(seq)
+                small = (order % 3 == 0) if quick else (_ == 2)
+                if small:                                  # normalised rates, cut-off 1 Hz
+                    seq = rng.sample(GV_HIST_SMALL, 3)
+                else:
+                    seq = rng.sample(GVS_FIXED, 2) + [rng.choice(GV_HIST_EXTRA)]
+                    rng.shuffle(seq)
                 seq = [g if isinstance(g, dict) else {"sps": g[0], "R": g[1]} for g in seq]
                 seq = seq + [seq[0]]
-                hist.append({"kind": "hist", "dev": hdev, "order": order, "wn": rng.choice(WN_FIXED), "seq": [dict(g) for g in seq],
+                hist.append({"kind": "hist", "dev": hdev, "order": order, "wn": 1.0 if small else rng.choice(WN_FIXED), "seq": [dict(g) for g in seq],
                               "sps": 16, "R": 1e9, "n": rng.randint(_edge(order) + 1, 90), "npol": rng.choice([1, 2]) if hdev == "bpf" else 1,
                               "noise": rng.random() < 0.5, "scale": 1.0, "seed": rng.getrandbits(32)})
     rng.shuffle(hist)
